@@ -30,6 +30,12 @@ CHECKS = {
         "Trusted base of C01.",
         "DESIGN.md section 6, C13",
     ),
+    "C05": (
+        "bounded-exhaustive enumeration + property-based testing (proptest), differential against a reference lexer/parser; conservation invariant",
+        "Stage A is complete for its finite sub-domain (all sequences of <=5 (quick) / <=6 (thorough) tokens over a 16-token alphabet): both parsers accept exactly what the documented grammar derives and build the dictated tree. Stage B explores random longer strings (rendered formulae with character-level mutations, token soup, lexical corner strings). Exploration; exhaustive only for stage A.",
+        "The reference grammar is derived from README, the parser module documentation and the property text; name characters / blanks are char::is_alphanumeric|'_' / char::is_whitespace.",
+        "DESIGN.md section 6, C05",
+    ),
 }
 
 PENDING_REASON = "check not built yet in this session (work in progress; see DESIGN.md section 10)"
